@@ -85,6 +85,14 @@ T = [
  ('C17-r5m4', '/tmp/mut-R5/mutants/4', 'C17', [('demo_test.rs', 'keyberon/src/layout.rs', K, 'r5m4_')]),
  ('C14-r5m5', '/tmp/mut-R5/mutants/5', 'C14', [('demo_test.rs', 'src/tests/sim_tests/repeat_sim_tests.rs', M, 'r5m5_')]),
  ('C14-r5m6', '/tmp/mut-R5/mutants/6', 'C14', [('demo_test.rs', 'src/tests/sim_tests/repeat_sim_tests.rs', M, 'r5m6_')]),
+ # ---- round 6: the functions that came under contract last (layers, seqs, reload, sexpr, holdtap units)
+ ('C08-r6m1', '/tmp/mut-R6/mutants/1', 'C08', [('demo_test.rs', 'src/tests/sim_tests/macro_sim_tests.rs', M, 'r6m1_')]),
+ ('C04-r6m2', '/tmp/mut-R6/mutants/2', 'C04', [('demo_test.rs', 'src/tests/sim_tests/macro_sim_tests.rs', M, 'r6m2_')]),
+ ('C05-r6m3', '/tmp/mut-R6/mutants/3', 'C05', [('demo_test.rs', 'keyberon/src/layout.rs', K, 'r6m3_')]),
+ ('C04-r6m4', '/tmp/mut-R6/mutants/4', 'C04', [('demo_test.rs', 'src/tests/sim_tests/layer_sim_tests.rs', M, 'r6m4_')]),
+ ('C15-r6m5', '/tmp/mut-R6/mutants/5', 'C15', [('demo_test.rs', 'src/kanata/mod.rs', M, 'r6m5_')]),
+ ('C15-r6m6', '/tmp/mut-R6/mutants/6', 'C15', [('demo_test.rs', 'src/kanata/mod.rs', M, 'r6m6_')]),
+ ('C03-r6m7', '/tmp/mut-R6/mutants/7', 'C03', [('demo_test.rs', 'parser/src/cfg/sexpr.rs', P, 'r6m7_')]),
 ]
 ENV = dict(os.environ, CARGO_TARGET_DIR=TGT, CARGO_NET_OFFLINE='true')
 
